@@ -152,7 +152,7 @@ def conc_drop(c, t, i):
     return {"kind": c["kind"], "init": c["init"], "progs": progs, "prefix": sched}
 
 
-def minimise_conc(ctx, binc, j, max_rounds=6):
+def minimise_conc(ctx, binc, j, max_rounds=6, final=False):
     cur = j
     for rnd in range(max_rounds):
         cands = [conc_drop(cur, t, i) for t in range(len(cur["progs"])) for i in range(len(cur["progs"][t]))]
@@ -163,10 +163,12 @@ def minimise_conc(ctx, binc, j, max_rounds=6):
         with open(p, "w") as f:
             for c in cands:
                 f.write(json.dumps(c) + "\n")
-        terms, jsons, err = L.run_harness(ctx, binc, "cmin%d" % rnd, ["-mode", "replay", "-in", p])
+        terms, jsons, err = L.run_harness(ctx, binc, "cmin%d" % rnd, ["-mode", "replay", "-in", p] +
+                                          (["-final"] if final else []))
         if err:
             break
-        bad, _, err = ctx.judge_cases(L.HEADER, "cc_case", "cc_judge", terms, shard=8, tag="cmin%d" % rnd)
+        bad, _, err = ctx.judge_cases(L.HEADER, "sc_case" if final else "cc_case",
+                                      "sc_judge" if final else "cc_judge", terms, shard=8, tag="cmin%d" % rnd)
         ones = [k for k, code in bad if code == 1] if not err else []
         if not ones:
             break
@@ -193,13 +195,17 @@ def build_conc(ctx):
 def schedule_search(ctx, binc):
     """exhaustive enumeration of the schedules of the catalogue programs on the real code; returns
     the shortest case whose quiescent state violates final_ok according to Coq, or None"""
-    terms, jsons, err = L.run_harness(ctx, binc, "search", ["-mode", "search", "-budget", 12], timeout=600)
+    budget, limit = (12, 45) if ctx.tier == "quick" else (16, 240)
+    terms, jsons, err = L.run_harness(ctx, binc, "search", ["-mode", "search", "-budget", budget, "-limit", limit],
+                                      timeout=limit + 60)
     if err or not jsons:
         ctx.cov["schedule_search"] = {"error": (err or "no output")[-500:]}
         return None
     explored = jsons[0].get("explored", 0)
     cand = [(t, j) for t, j in zip(terms, jsons) if j["kind"] == "search"]
-    info = {"complete_schedules_explored": explored, "budget_steps": 12, "candidates": len(cand)}
+    info = {"complete_schedules_explored": explored, "budget_steps": budget, "time_limit_s": limit,
+            "candidates": len(cand), "timed_out": any(j["kind"] == "search-timeout" for j in jsons),
+            "scheduler_error": next((j["err"] for j in jsons if j.get("err")), None)}
     ctx.cov["schedule_search"] = info
     if not cand:
         ctx.log("schedule search: %d complete schedules of the catalogue explored, no lost update" % explored)
@@ -217,33 +223,66 @@ def schedule_search(ctx, binc):
     return j
 
 
-def conc_part(ctx, quick):
+def last_resort_stress(ctx, binp):
+    """1-2 s of free-running goroutines on the UNinstrumented code (harness built before the copy
+    was instrumented); only final states that look like a lost update are written, Coq decides"""
+    terms, jsons, err = L.run_harness(ctx, binp, "laststress", ["-mode", "stress", "-n", 12000, "-suspect"],
+                                      timeout=120)
+    info = {"iterations": 12000, "candidates": len(jsons), "error": err and err[-300:]}
+    ctx.cov["last_resort_stress"] = info
+    if err or not jsons:
+        ctx.log("free-running stress (last resort): 12000 iterations, no lost update")
+        return None
+    bad, _, err = ctx.judge_cases(L.HEADER, "sc_case", "sc_judge", terms, shard=50, tag="laststress")
+    ones = [k for k, code in bad if code == 1] if not err else []
+    info["violations"] = len(ones)
+    ctx.log("free-running stress (last resort): 12000 iterations, %d lost update(s)" % len(ones))
+    if not ones:
+        return None
+    return min((jsons[k] for k in ones), key=lambda j: sum(len(p) for p in j["progs"]))
+
+
+def conc_part(ctx, quick, binp=None):
     binc, ok_tie, tie_msg, log = build_conc(ctx)
     if not binc:
         ctx.report({"unchecked": "translator tie (T) / build of the instrumented copy of package log for "
                                  "schedule replay", "detail": log[-3000:], "translator_tie": tie_msg},
                    {"kind": "build"}, failing_input=False)
         return
+    # the source has the model's programs: compare step by step with the Coq machine; otherwise
+    # (tie broken: a program structure the model does not have) judge only the quiescent state
+    final = not ok_tie
+    fin = ["-final"] if final else []
     n = 240 if quick else 4000
-    terms, jsons, err = vlib.harness_cases(ctx, binc, [("ccorpus", ["-mode", "corpus"])])
+    terms, jsons, err = vlib.harness_cases(ctx, binc, [("ccorpus", ["-mode", "corpus"] + fin)])
     extra = corpus_cases("conc")
     if not err and extra:
         p = os.path.join(ctx.scratch, "ccorpusfiles.jsonl")
         with open(p, "w") as f:
             for c in extra:
                 f.write(json.dumps(c) + "\n")
-        t, j, err = L.run_harness(ctx, binc, "ccorpusfiles", ["-mode", "replay", "-in", p])
+        t, j, err = L.run_harness(ctx, binc, "ccorpusfiles", ["-mode", "replay", "-in", p] + fin)
         terms, jsons = terms + t, jsons + j
     if not err:
-        t, j, err = vlib.harness_cases(ctx, binc, [("crandom", ["-mode", "random", "-n", n])])
+        t, j, err = vlib.harness_cases(ctx, binc, [("crandom", ["-mode", "random", "-n", n] + fin)])
         terms, jsons = terms + t, jsons + j
+    sched_err = None
     if not err and any(j.get("err") for j in jsons):
-        err = "scheduler: " + next(j["err"] for j in jsons if j.get("err"))
+        # a goroutine neither yielded nor returned: it blocks on something the instrumenter does
+        # not know; keep the cases that did complete
+        sched_err = "scheduler: " + next(j["err"] for j in jsons if j.get("err"))
+        keep = [k for k, j in enumerate(jsons) if not j.get("err")]
+        terms, jsons = [terms[k] for k in keep], [jsons[k] for k in keep]
     if err:
         ctx.report({"unchecked": "schedule replay run", "detail": err}, {"kind": "harness"}, failing_input=False)
         return
-    bad, nt, err = ctx.judge_cases(L.HEADER, "cc_case", "cc_judge", terms, shard=20 if quick else 150,
-                                   nontrivial="cc_nontrivial", tag="conc")
+    if final:
+        bad, nt, err = ctx.judge_cases(L.HEADER, "sc_case", "sc_judge", terms, shard=60 if quick else 400,
+                                       tag="conc")
+        nt = sum(1 for j in jsons if len(set(j["sched"])) > 1)
+    else:
+        bad, nt, err = ctx.judge_cases(L.HEADER, "cc_case", "cc_judge", terms, shard=20 if quick else 150,
+                                       nontrivial="cc_nontrivial", tag="conc")
     if err:
         ctx.report({"unchecked": "in-kernel evaluation of the schedule replay", "detail": err},
                    {"kind": "coq_eval"}, failing_input=False)
@@ -272,11 +311,19 @@ def conc_part(ctx, quick):
         L.report_capped(ctx, rep, {"kind": "conc", "shape": "lost_update" if code == 1 else "model_mismatch"},
                         code == 1, 5)
 
-    for k, i in enumerate(ones):
-        j = minimise_conc(ctx, binc, jsons[i]) if k == 0 else jsons[i]
-        conc_report(j, 1)
     found = None
-    if not ones and (twos or not ok_tie):
+    if ones and final:
+        # a minimal witness: the exhaustive search over the catalogue of tiny programs (it stops
+        # at the first, smallest, program pair that has a violating schedule)
+        found = schedule_search(ctx, binc)
+        if found:
+            conc_report(found, 1, {"found_by": "exhaustive schedule search over the 2-goroutine catalogue (final "
+                                               "state judged with final_ok), run to minimise: the generated replay "
+                                               "cases had %d violations" % len(ones)})
+    for k, i in enumerate(ones):
+        j = minimise_conc(ctx, binc, jsons[i], final=final) if (k == 0 and not found) else jsons[i]
+        conc_report(j, 1)
+    if not ones and (twos or not ok_tie or sched_err):
         # the step structure of the code differs from the model's programs (or the tie is broken):
         # look for a concrete lost update on the real code, judging quiescent states only
         found = schedule_search(ctx, binc)
@@ -285,7 +332,21 @@ def conc_part(ctx, quick):
                                                "(final state judged with final_ok); %d complete schedules explored; "
                                                "%d step-by-step disagreements with the Coq machine in the replay run"
                                                % (found.get("explored", 0), len(twos))})
-    if not ones and not found:
+    if not ones and not found and binp and (twos or not ok_tie or sched_err):
+        found = last_resort_stress(ctx, binp)
+        if found:
+            found["sched"], found["done"] = "free-running (not deterministic)", True
+            conc_report(found, 1, {"found_by": "free-running stress of the uninstrumented code (last resort); "
+                                               "re-run ./check C18 to look for it again",
+                                   "replay_cmd": "./check C18 (VERIF_SEED=%d); not deterministic" % ctx.seed})
+    if not ones and not found and sched_err:
+        ctx.report({"unchecked": "schedule replay: " + sched_err, "translator_tie": tie_msg},
+                   {"kind": "harness"}, failing_input=False)
+    if not ones and not found and getattr(ctx, "c18_failing", False):
+        # the sequential part already reported concrete failing inputs; the concurrent part only
+        # differs from the model (or its tie is broken): recorded in the evidence, the run fails anyway
+        ctx.cov["conc_model_mismatches_not_reported"] = {"verdict_2_cases": len(twos), "tie_ok": ok_tie}
+    elif not ones and not found:
         for i in twos[:2]:
             conc_report(jsons[i], 2)
         for _ in twos[2:]:
@@ -297,10 +358,12 @@ def conc_part(ctx, quick):
     ctx.cov.update({
         "conc_cases": len(jsons),
         "conc_steps": sum(len(j["sched"]) for j in jsons),
+        "conc_judged": "final state only (tie broken)" if final else "step by step against the Coq machine",
         "conc_nontrivial_in_coq": nt,
         "conc_threads_histogram": L.hist(len(j["progs"]) for j in jsons),
         "conc_disagreements": len(bad),
         "conc_samples": jsons[:1] + jsons[5:6],
+        "conc_scheduler_error": sched_err,
     })
     ctx.log("schedule replay: %d cases, %d steps, %d interleaved non-trivially, %d disagreement(s)" % (
         len(jsons), ctx.cov["conc_steps"], nt, len(bad)))
@@ -426,7 +489,7 @@ def run(ctx):
         return
     if binr:
         stress_run(ctx, binr)
-    cj = conc_part(ctx, quick) or []
+    cj = conc_part(ctx, quick, binp) or []
     nt = [j for j in jsons if L.seq_nontrivial(j)]
     cnt = [j for j in cj if len(j["sched"]) > 2 * sum(len(p) for p in j["progs"])]
     ctx.cov.update({
